@@ -115,7 +115,7 @@ def templates(tier, seed):
         for kinds in ({"a": "int"}, {"b": "float"}, {"a": "str"}, {"a": "bool"}):
             tag = "+".join(f"{k}={x}" for k, x in kinds.items())
             ts.append(Template(f"T5/wrong_dtype/{tag}/N={N}", t_frame, (["a", "b"], False, False, N, {"kinds": dict(tmpl.KINDS, **kinds)})))
-    for N in ((0, 1) if tier == "quick" else (0, 1)):
+    for N in ((0, 1) if tier == "quick" else (0,)):  # (N=1 is part of the thorough T2 family already)
         ts.append(Template(f"T2/ab/strict=False/ordered=0/N={N}", t_frame, (["a", "b"], False, False, N, {})))
     # label level with three declared columns (two of them optional or required, chosen by the solver) over every arrangement
     import itertools
